@@ -274,7 +274,7 @@ the list of transactions it commits, in order (empty list = returns without writ
 
 def hStartWorkflow (c : Cfg) (s : State) (id : Nat) : List Txn :=
   if s.wfStatus != .notStarted then []
-  else if s.canceled then []
+  else if s.canceled then [[.push .cancelWorkflow]]     -- canceled before it started: handed to the regular cancel path (F60)
   else
     let initial := (List.range c.n).filter (fun i => (c.reqs i).isEmpty)
     if initial.isEmpty then [[.setWf .terminal, .mark id]]
